@@ -156,6 +156,14 @@ def families(tier, rng):
         for cons in ["……_", "…,", ":,,", "…", "…:,_", "…h_…_", ",", "w…,"]:
             for fl in ("", "o", "W"):
                 out.append((prod + cons, fl, inp[0]))
+    # H  lazily produced lists whose ITEMS are lazily produced lists, side effects at both levels, written directly
+    #    (each inner list in its own bracket as it is produced) or as part of something else (everything outer first,
+    #    then the inner ones in order), once or twice, the original or a copy first
+    for src in ["2", "⟨1|2⟩", "3"]:
+        for body in ["ƛ£¥ƛ¥+;;", "ƛ…ƛ,;;", "ƛnƛ…;;", "ƛ:ƛ…;$_;", "ƛ£ƛ¥…+;;", "ƛ…ƛ…ƛ,;;;"]:
+            for cons in ["", "w", "w,", ",", ":,,", "…,", "1\"", "W", ":w,,", "$", "w…_"]:
+                for fl in ("", "W") if tier == "quick" else ("", "W", "o", "O"):
+                    out.append((src + body + cons, fl, inp[0]))
     for st in MOD_STACKS[:4]:
         for o in ["λ_;", "λ2|$-;", "λ3|_$-;", "λ1;"]:
             out.append((st + "≬" + o + "WvN†", "W", inp[1]))
